@@ -43,6 +43,8 @@ def delegation(ctx, idx, d, r, base_name, rule="C08.a"):
         ctx.violate(rule, con, d.module.rel, d.cls.node.lineno, "%s derives its body from %s, not from %s" % (d.cls.name, base.cls.name if base else "nothing", base_name))
         return
     sup = [x for x in r.super_calls if x[3] == fi.key and x[0].func.attr == "execute"]
+    if not sup and any(fk_ == fi.key and c_.name in SIBLINGS for _e, c_, fk_ in getattr(r, "fresh_executes", ())):
+        raise AnalysisError("%s: %s.execute hands over to a temporary instance of another conversion command instead of its base's body: whether that evaluates the same definition is outside the delegation rule" % (rule, d.cls.name))
     if len(sup) != 1:
         ctx.violate(rule, con, d.module.rel, fi.node.lineno, "%s.execute does not call super().execute exactly once" % d.cls.name)
         return
@@ -76,6 +78,15 @@ def delegation(ctx, idx, d, r, base_name, rule="C08.a"):
         if tgt in forwarded and srcname in init.d:
             a, b = forwarded[tgt], init.d[srcname]
             same = (a == b) or (type(a) is type(b) and getattr(a, "sym", 1) == getattr(b, "sym", 2)) or (isinstance(a, Lst) and isinstance(b, Lst) and a.srcs == b.srcs and a.L == b.L)
+            if not same and base_name == "NormalizeCat":
+                # category values are stored as they are, so limiting each of them to [-1, 1] first is the same as limiting the
+                # result (not so for curves: interpolating between limited control points is another function)
+                W_ = (("c", -1), ("c", 1))
+                if isinstance(a, Scal) and isinstance(b, Scal) and b.sym and a.sym == "clamped(%s)" % b.sym and a.rng == W_:
+                    same = True
+                if isinstance(a, Lst) and isinstance(b, Lst) and a.what == b.what == "nums" and a.srcs == ("derived",) + tuple(b.srcs) and isinstance(a.elem, Scal) and a.elem.rng == W_ \
+                        and a.elem.sym == "clamped(elem(%s))" % ",".join(b.srcs):
+                    same = True
             if not same and not (tgt in ("TrueThresholdZScore", "FalseThresholdZScore")):
                 problems.append("`%s` forwarded as `%s` is not the caller's value" % (srcname, tgt))
     # range constants
